@@ -1260,7 +1260,7 @@ LIBRARY = {
     ('ipaddress', 'ip_address'): ('builtin', 'ip_address'),
     ('ipaddress', 'IPv4Address'): ('class', 'IPv4Address'), ('ipaddress', 'IPv6Address'): ('class', 'IPv6Address'),
     ('ipaddress', 'IPv4Network'): ('class', 'IPv4Network'), ('ipaddress', 'IPv6Network'): ('class', 'IPv6Network'),
-    ('itertools', 'count'): ('builtin', 'itertools.count'),
+    ('itertools', 'count'): ('builtin', 'itertools.count'), ('itertools', 'chain'): ('builtin', 'itertools.chain'),
     ('asyncio', 'get_event_loop'): ('builtin', 'get_event_loop'),
     ('asyncio', 'TimeoutError'): ('exc', 'asyncio.TimeoutError'), ('aiohttp', 'ClientError'): ('exc', 'aiohttp.ClientError'),
     ('aiohttp', 'ClientConnectionError'): ('exc', 'aiohttp.ClientConnectionError'),
@@ -2990,6 +2990,22 @@ def comprehension(ip, e, fr, kind):
     if is_dict:
         # {k(x): v(x) for x in <symbolic list>} : domain = the keys that occur; a key occurring several times keeps the
         # value of its LAST occurrence (witness function `last`)
+        if not g.ifs and isinstance(src, VSet) and isinstance(g.target, ast.Name) and isinstance(e.key, ast.Name) \
+                and e.key.id == g.target.id:
+            # {x: f(x) for x in <set>}: domain = the set, value f(x) for every member
+            if src.ek is None:
+                return VDict(None, None, None, None)
+            X = z3.Const(ip.fresh_name('cx'), src.ek.sort())
+            with QuantScope(ip, [z3.Select(src.dom, X)]) as scope:
+                ip.assign(g.target, src.ek.wrap(X, None), sub)
+                vv = resolve(ip, ip.eval(e.value, sub))
+                vk = kind_of(vv)
+                vt = vk.unwrap(vv)
+            comprehension_outcome(ip, scope, X, z3.Select(src.dom, X), e)
+            d = KDict(src.ek, vk).fresh(ip, 'dcomp')
+            ip.assume(z3.ForAll([X], z3.Select(d.dom, X) == z3.Select(src.dom, X), patterns=[z3.Select(d.dom, X)]))
+            ip.assume(z3.ForAll([X], z3.Implies(z3.Select(src.dom, X), z3.Select(d.map, X) == vt), patterns=[z3.Select(d.map, X)]))
+            return d
         if g.ifs or not isinstance(src, VList) or 'enum_of' in src.ghost:
             raise EngineError('dict comprehension over this symbolic source')
         if src.ek is None:
@@ -3541,6 +3557,22 @@ def _next(ip, args, kwargs, node, fr):
     if isinstance(v, VOpaque):
         return VInt(z3.Int(ip.fresh_name('next')))      # itertools.count(): some fresh integer
     raise EngineError(f'next() of {v!r}')
+
+
+@builtin('itertools.chain')
+def _chain(ip, args, kwargs, node, fr):
+    '''itertools.chain(a, b, ...) over lists / tuples of one element kind: the concatenation'''
+    vs = [resolve(ip, a) for a in args]
+    vs = [tuple_to_list(v) if isinstance(v, VTuple) else v for v in vs]
+    if not vs or not all(isinstance(v, VList) for v in vs):
+        raise EngineError('itertools.chain of these arguments')
+    vs = [v for v in vs if v.ek is not None] or vs[:1]
+    out = vs[0]
+    for v in vs[1:]:
+        j = z3.Int(ip.fresh_name('j'))
+        arr = def_array(ip, j, z3.If(j < out.n, z3.Select(out.arr, j), z3.Select(v.arr, j - out.n)), 'chain')
+        out = VList(arr, z3.simplify(out.n + v.n), out.ek)
+    return out
 
 
 @builtin('itertools.count')
